@@ -101,6 +101,13 @@ func genInputCase(t *rapid.T) *Case {
 	if rapid.Bool().Draw(t, "whole_input") {
 		outFields = append(outFields, ir.F("all", ir.Ref("input")))
 	}
+	if hasNested && rapid.IntRange(0, 2).Draw(t, "whole_nested") == 0 {
+		// a property whose type refers to another object of the input scope, handed on whole
+		outFields = append(outFields, ir.F("nested_obj", ir.Ref("input", "nested")))
+	}
+	if nItems > 0 && rapid.IntRange(0, 3).Draw(t, "whole_items") == 0 {
+		outFields = append(outFields, ir.F("item_objs", ir.Ref("input", "items")), ir.F("item0", ir.Ref("input", "items", 0)))
+	}
 	p.Outputs = []ir.Output{{ID: "success", E: ir.Obj(outFields...)}}
 	// corrupt the document half of the time
 	corruption := "none"
@@ -155,7 +162,9 @@ func init() {
 				return []Violation{viol("C19", "prepare-rejected-generated-program", "", "a well-typed generated program was rejected: %s", r.PrepareErr)}
 			}
 			if len(r.Panics) > 0 {
-				return nil
+				// these programs do nothing but refer to the workflow input: a panic is about that
+				p := r.Panics[0]
+				return []Violation{viol("C19", "panic", panicShape(p.Value, p.Stack), "a workflow that only refers to its input panicked: %s\n%s", p.Value, firstLines(p.Stack, 20))}
 			}
 			_, derr := c.NormDoc()
 			c0 := r.Clients[0]
